@@ -1,4 +1,5 @@
 """C08 — OLD snapshots: captured once, after the preconditions and before the body; misuse rejected at definition."""
+import inspect
 import itertools
 from typing import Any, Dict, List
 
@@ -460,6 +461,7 @@ def run(w) -> None:
     w.exhaustive = False
     if w.shard == 1 % w.nshards:
         run_awaitable_values(w)
+        run_self_referring_captures(w)
     for meta, spec in specs(w):
         w.count("programs")
         run_spec(w, spec, meta)
@@ -467,7 +469,105 @@ def run(w) -> None:
         run_misuse(w)
 
 
+SELF_REFERRING_SOURCE = '''
+import icontract
+
+
+def balance_before(self):
+    HUB.capture("cap:balance", {{}})
+    return {w}self.balance()
+
+
+{a}def same_as_before(self, result, OLD):
+    HUB.cond("post:balance", {{}})
+    return result == OLD.before
+
+
+class Account:
+    def __init__(self, cents):
+        self.cents = cents
+
+    @icontract.require(lambda self: HUB.cond("pre:balance", {{}}))
+    @icontract.snapshot({cap}, name="before")
+    @icontract.ensure(same_as_before)
+    {a}def balance(self):
+        """A pure query whose snapshot asks the very query."""
+        HUB.body("balance", {{}})
+        return self.cents
+
+
+{a}def depth_of_other(node):
+    HUB.capture("cap:depth", {{}})
+    return 0 if node.child is None else {w}depth(node.child)
+
+
+class Node:
+    def __init__(self, child=None):
+        self.child = child
+
+
+@icontract.require(lambda node: HUB.cond("pre:depth", {{}}))
+@icontract.snapshot(depth_of_other, name="below")
+@icontract.ensure(lambda result, OLD: HUB.cond("post:depth", {{}}) and result == OLD.below + 1)
+{a}def depth(node):
+    HUB.body("depth", {{}})
+    return 1 if node.child is None else 1 + ({w}depth(node.child))
+'''
+
+
+def run_self_referring_captures(w) -> None:
+    """A capture which calls the function it belongs to (a query asked for its own value before the call; the same function on another
+    argument): that call is a re-entry while the contracts of the function are being evaluated - each capture runs once per checked
+    call, and the evaluation terminates."""
+    import sys  # pylint: disable=import-outside-toplevel
+
+    for is_async in (False, True):
+        a, aw = ("async ", "await ") if is_async else ("", "")
+        cap = "balance_before"
+        src = SELF_REFERRING_SOURCE.format(a=a, w=aw, cap=cap)
+        if is_async:
+            src = src.replace("def balance_before(self):", "async def balance_before(self):")
+        loaded = prog.load_source(src, w.scratch())
+        mod, hub = loaded.module, loaded.hub
+        old_limit = sys.getrecursionlimit()
+        try:
+            for tag, call, want in (
+                    ("query-captures-itself", lambda: mod.Account(5).balance(),
+                     [("cond", "pre:balance"), ("snap", "cap:balance"), ("body", "balance"), ("body", "balance"), ("cond", "post:balance")]),
+                    ("capture-calls-the-function-on-another-argument", lambda: mod.depth(mod.Node(mod.Node())),
+                     # (the call made by the CAPTURE is a re-entry: body only; the recursive call made by the BODY is checked in full)
+                     [("cond", "pre:depth"), ("snap", "cap:depth"), ("body", "depth"), ("body", "depth"), ("cond", "pre:depth"), ("snap", "cap:depth"),
+                      ("body", "depth"), ("cond", "post:depth"), ("cond", "post:depth")])):
+                hub.reset()
+                sys.setrecursionlimit(len(inspect.stack(0)) + 300)
+                try:
+                    res = call()
+                    if inspect.iscoroutine(res):
+                        res = probe.drive(res)
+                    outcome = "returned {!r}".format(res)
+                except RecursionError:
+                    outcome = "RecursionError"
+                except BaseException as err:  # pylint: disable=broad-except
+                    outcome = "raised {}: {}".format(type(err).__name__, str(err)[:100])
+                finally:
+                    sys.setrecursionlimit(old_limit)
+                got = [(e.kind, e.id) for e in hub.events]
+                w.count("programs")
+                w.count("capture_events", sum(1 for k, _ in got if k == "snap"))
+                w.count("self_referring_capture_calls")
+                w.case(("self-referring-capture", tag, is_async))
+                if not outcome.startswith("returned") or got != want:
+                    w.violation("C08/capture-evaluated-more-than-once-per-checked-call", "{} ({}): {} with events {} (expected {})".format(
+                        tag, "async" if is_async else "sync", outcome, got[:14], want), {"self_referring": tag, "async": is_async})
+        finally:
+            sys.setrecursionlimit(old_limit)
+            loaded.unload()
+
+
 def replay(case, w) -> None:
+    if "self_referring" in case:
+        run_self_referring_captures(w)
+        return
     if "awaitable_values" in case:
         run_awaitable_values(w)
         return
